@@ -298,6 +298,9 @@ func (r *Run) seedGlobal(g *ssa.Global, o *Object) {
 		r.storeT(Ptr{Obj: o}, t, Iface{T: r.eng.canon(types.NewPointer(et)), V: Ptr{Obj: eo}})
 		return
 	}
+	if r.seedJSONGlobal(name, o, t) {
+		return
+	}
 	if name == "io.Discard" {
 		dt := r.namedType("io", "discard")
 		r.storeT(Ptr{Obj: o}, t, Iface{T: r.eng.canon(dt), V: r.zeroValue(dt)})
